@@ -499,7 +499,8 @@ def run_case(case, keep_log=False):
             stats["t_runs"] += 1
             d = compare(ref, (envT.history, outT), "T")
             if d is not None:
-                if explained(sched, (envT.history, outT), False, budget):
+                if d[0] != "outcome-mismatch:R=exc(UnboundLocalError):T=exc(NameError)" \
+                        and explained(sched, (envT.history, outT), False, budget):
                     d = ("known-desugaring:" + d[0],) + d[1:]
                 viol("C07", d[0], "", d[1], d[2], sched)
             verdicts.append(["T", d[0] if d else "ok"])
